@@ -27,6 +27,7 @@ def run(F, tier):
     rep.rules.pop("G6", None)
     grules.g7(rep, tms, F)
     grules.g8(rep, tms)
+    grules.g9(rep, tms)
     for tm in tms[:3]:
         if tm.g:
             rep.sample({"type": tm.name,
